@@ -27,6 +27,14 @@ def run(prop: str, tier: str) -> int:
         from . import props_c15
 
         return props_c15.run(tier)
+    if prop == "C16":
+        from . import props_c16
+
+        return props_c16.run(tier)
+    if prop == "C14":
+        from . import props_c14
+
+        return props_c14.run(tier)
     if prop == "C10":
         from . import props_e3
 
